@@ -56,70 +56,7 @@ def _gen_tool():
     return m
 
 
-# -- coqchk ---------------------------------------------------------------------------------------------------------
-# The core's thorough tier runs `coqchk -o` WITHOUT the bytecode VM (coqchk's default) under a 1500 s timeout.  The
-# six 4x5-window sweeps are vm_compute proofs: without the VM coqchk needs > 5 min for EACH of them (measured), so the
-# core's call can only time out and would raise a false alarm.  This module therefore switches the core's call off
-# for its own run and runs the same independent checker itself with `-bytecode-compiler yes` (2 min for the whole
-# dependency cone; the VM is in the trusted base of every vm_compute proof anyway), in the background during the
-# correspondence phase; a failure, an axiom or an unsafe flag breaks the run exactly like the core's call would.
-_CHK = {}
-
-
-def _coqchk_start(ctx):
-    if ctx.tier != "thorough" or _CHK.get("user_off") or "proc" in _CHK:
-        return
-    from harness import core
-    vo = os.path.join(core.COQ, PROPS_FILE[:-2] + ".vo")
-    if not os.path.exists(vo):
-        return                      # the proof build failed; that is reported by the core already
-    import tempfile
-    _CHK["out"] = tempfile.TemporaryFile(mode="w+")
-    _CHK["t0"] = __import__("time").time()
-    _CHK["proc"] = subprocess.Popen(
-        ["timeout", "1500", "coqchk", "-silent", "-o", "-bytecode-compiler", "yes", "-R", "theories", "Centro",
-         "Centro." + PROPS_FILE[len("theories/"):-2].replace("/", ".")],
-        cwd=core.COQ, stdout=_CHK["out"], stderr=subprocess.STDOUT)
-
-
-def _coqchk_finish(ctx):
-    """None when fine / not run; otherwise the text of the broken obligation"""
-    if "proc" not in _CHK:
-        return None
-    import re
-    import time
-    rc = _CHK["proc"].wait()
-    _CHK["out"].seek(0)
-    out = _CHK["out"].read()
-    ctx.timings["coqchk_vm"] = round(time.time() - _CHK["t0"], 1)
-    if rc != 0 or "CONTEXT SUMMARY" not in out:
-        return "coqchk -bytecode-compiler yes failed (rc %s): %s" % (rc, out.strip()[-400:])
-    summ = out.split("CONTEXT SUMMARY", 1)[1]
-
-    def section(title):
-        m = re.search(r"\* " + re.escape(title) + r"[^:]*:(.*?)(?=\n\s*\* |\Z)", summ, re.S)
-        return " ".join(m.group(1).split()) if m else "?"
-    res = {k: section(t) for k, t in (("axioms", "Axioms"),
-                                      ("type_in_type", "Constants/Inductives relying on type-in-type"),
-                                      ("unsafe_fix", "Constants/Inductives relying on unsafe (co)fixpoints"),
-                                      ("assumed_positive", "Inductives whose positivity is assumed"))}
-    line = ("coqchk -o -bytecode-compiler yes (independent checker, whole dependency cone of Props/C05.v, run by "
-            "harness/props/c05.py because the core's VM-less call cannot finish the six window sweeps in its "
-            "timeout): axioms: %(axioms)s; type-in-type: %(type_in_type)s; unsafe fixpoints: %(unsafe_fix)s; "
-            "assumed positivity: %(assumed_positive)s" % res)
-    if line not in TRUSTED:
-        TRUSTED.append(line)
-    ctx.note(line)
-    bad = [k for k, v in res.items() if v != "<none>"]
-    if bad:
-        return "coqchk reports %s" % "; ".join("%s: %s" % (k, res[k][:200]) for k in bad)
-    return None
-
-
 def gen_files(ctx):
-    if ctx.tier == "thorough" and "user_off" not in _CHK:
-        _CHK["user_off"] = os.environ.get("VERIF_COQCHK", "1") == "0"
-        os.environ["VERIF_COQCHK"] = "0"       # see the comment above: replaced by _coqchk_start/_coqchk_finish
     return {"theories/Gen/TablesC05.v": _gen_tool().gen(ctx)}
 
 
@@ -431,7 +368,6 @@ def _session(rng, big, n):
 
 
 def generate(ctx):
-    _coqchk_start(ctx)
     rng = ctx.rng
     big = ctx.n(26, 40)
     cases = list(_corpus())
@@ -748,26 +684,8 @@ def _flag(it):
     return [0, 0] if it is None else [1, int(it)]
 
 
-_FRESH = {}
-
-
-def _fresh_model(ctx):
-    """When a proof file fails, the core's single make run may stop before the (independent) model and extraction
-    targets are rebuilt, leaving the extracted program on the OLD tables.  Build the extraction target on its own
-    once per run, so the model always follows the regenerated tables."""
-    if _FRESH.get(id(ctx)):
-        return
-    _FRESH[id(ctx)] = True
-    from harness import core
-    with core.CoqLock():
-        rc, out = core.coq_make([EXTRACT[0][:-2] + ".vo"], timeout=600, jobs=4)
-    if rc != 0:
-        raise RuntimeError("model/extraction build failed: " + out[-800:])
-
-
 def _prun(ctx, entry, args, chunk=20000, workers=4):
     """ctx.run_model in chunks on a few threads (each chunk is one run of the extracted program)"""
-    _fresh_model(ctx)
     if len(args) <= 2000:
         return ctx.run_model(entry, args)
     from concurrent.futures import ThreadPoolExecutor
@@ -1099,9 +1017,6 @@ def nontrivial(case, out):
 
 
 def kernel_crosscheck(ctx, cases, outs):
-    chk = _coqchk_finish(ctx)
-    if chk:
-        return "proof: " + chk, 0
     total = 0
     plan = [("thin", "entry_thin", 14), ("shrink", "entry_shrink", 12), ("loop", "entry_loop", 12),
             ("lookup", "entry_lookup", 8), ("skel_ord", "entry_skel_ord", 6)]
@@ -1239,8 +1154,9 @@ MANIFEST = {
         "package on every run: the kernel re-runs the 512-pattern simple-point sweep (skeletonize table) and the "
         "pruned 4x5-window sweep (six pass tables) whenever a table bit changes. Also proved: convergence and "
         "idempotence of thin / binary_shrink run to convergence, equal component / hole counts from TopoEq, "
-        "per-label independence of skeletonize_labels over the colouring model, the local (512-pattern) half of "
-        "shrink-to-a-point. The models are tied to the code by exact equality of complete outputs (exhaustively on "
+        "per-label independence of skeletonize_labels over the colouring model, and that binary_shrink run to convergence "
+        "reduces every connected hole-free image to exactly one pixel (end-pixel lemma: kernel sweeps + a crossing-parity "
+        "Jordan argument + induction on the last raster pixel). The models are tied to the code by exact equality of complete outputs (exhaustively on "
         "all small images, plus random images over every dtype, layout, mask, ordering and iteration parameter, long "
         "images, fresh-interpreter call sequences) with the extracted models cross-checked against vm_compute, and "
         "the verified checker topo_check (soundness proved) is evaluated on every output."),
@@ -1248,9 +1164,9 @@ MANIFEST = {
         "Trusted: Coq kernel + vm_compute; extraction (ExtrOcamlBasic only) and the S-expression driver; the table "
         "translator tools/gen_tables_c05.py; the Python harness; scipy's EDT / NumPy's lexsort and permutation (only "
         "choose the processing order, which the theorem quantifies over); color_labels. The tie between model and "
-        "code is differential, not a proof about Python/C++. Two global digital-topology lemmas are named as "
-        "hypotheses of _partial theorems (existence of an end pixel in a hole-free object; Ronse's deletability "
-        "theorem for completeness of topo_check); both are validated exhaustively on small images outside Coq."),
+        "code is differential, not a proof about Python/C++. One global digital-topology lemma is named as the "
+        "hypothesis of a _partial theorem (Ronse's deletability theorem, for completeness of topo_check only; "
+        "validated exhaustively on small images outside Coq); soundness of the checker is proved."),
     "technique": "Coq proof over executable model (kernel-run finite sweeps on regenerated tables, lifted to all images) "
                  "+ exact differential correspondence (extracted OCaml and vm_compute) + verified checker on outputs",
     "design_ref": "DESIGN.md section 7, C05",
